@@ -261,6 +261,27 @@ def job_gmm_lengths():
         except ValueError:
             rej = True
         cases.append((f"{nm}: rejected == {want}", rej == want))
+    # integer-typed parameters describe the same mixture as their float spelling: same samples for the same seed
+    for d_ in (1, 2):
+        li = [[0] * d_, [6] * d_]
+        si = [[2], [1]] if d_ == 1 else [[[2, 1], [1, 2]], [[1, 0], [0, 3]]]
+        Xi, yi = data.draw_gmm(40, np.array(li), np.array(si), np.array([0.5, 0.5]), 3)
+        Xf, yf = data.draw_gmm(40, np.array(li, dtype=float), np.array(si, dtype=float), np.array([0.5, 0.5]), 3)
+        cases.append((f"draw_gmm d={d_}: integer-typed loc/scale give the samples of the float-typed ones (same seed)", bool(np.array_equal(yi, yf) and np.allclose(Xi, Xf, rtol=0, atol=1e-12))))
+    # gstm: every sample is labelled by the component it was drawn from, also when a component receives no sample (small n);
+    # with well separated components (alpha=200) the quadrant of a sample identifies its component
+    bad_g = 0
+    for n_ in (4, 5, 8, 12):
+        for seed in range(40):
+            Xg, yg = data.gstm(n=n_, alpha=200, df=50, random_state=seed)
+            quad = {}
+            for x, lab in zip(Xg, yg):
+                quad.setdefault((x[0] > 0, x[1] > 0), set()).add(int(lab))
+            # documented locations alpha * (1,1), (1,-1), (-1,1), (-1,-1) for components 0..3, the last one being the Student-t component
+            want_lab = {(True, True): 0, (True, False): 1, (False, True): 2, (False, False): 3}
+            if any(v != {want_lab[q]} for q, v in quad.items()):
+                bad_g += 1
+    cases.append(("gstm (n in 4..12, 40 seeds, alpha=200): every sample carries the label of the component whose quadrant it lies in", bad_g == 0))
     for nm, ok in cases:
         res["obligations"].append({"name": "lengths/" + nm, "verdict": "unsat" if ok else "sat", "how": "concrete"})
         if not ok:
